@@ -107,23 +107,32 @@ func (demuxer *Demuxer) process() {
 			continue
 		}
 
-		packet := p.(*Packet)
-		var err error
-		switch packet.Channel {
-		case ChannelVideo:
-			err = demuxer.vdp.Depacketize(packet)
-		case ChannelVideoControl:
-			err = demuxer.vdp.Control(packet)
-		case ChannelAudio:
-			err = demuxer.adp.Depacketize(packet)
-		case ChannelAudioControl:
-			err = demuxer.adp.Control(packet)
-		}
+		demuxer.processPacket(p.(*Packet))
+	}
+}
 
-		if err != nil {
-			demuxer.logger.Errorf("rtp demuxer: depackeetize rtp frame error :%s", err.Error())
-			// break
+// 处理单个包；畸形包引发的 panic 只丢弃该包，不能终止整个转换例程
+func (demuxer *Demuxer) processPacket(packet *Packet) {
+	defer func() {
+		if r := recover(); r != nil {
+			demuxer.logger.Errorf("rtp demuxer: depacketize panic；r = %v \n %s", r, debug.Stack())
 		}
+	}()
+
+	var err error
+	switch packet.Channel {
+	case ChannelVideo:
+		err = demuxer.vdp.Depacketize(packet)
+	case ChannelVideoControl:
+		err = demuxer.vdp.Control(packet)
+	case ChannelAudio:
+		err = demuxer.adp.Depacketize(packet)
+	case ChannelAudioControl:
+		err = demuxer.adp.Control(packet)
+	}
+
+	if err != nil {
+		demuxer.logger.Errorf("rtp demuxer: depackeetize rtp frame error :%s", err.Error())
 	}
 }
 
